@@ -11,10 +11,16 @@ package c04
 
 import (
 	"fmt"
+	"runtime/debug"
 	"strings"
 
 	"verif/harness/core"
 )
+
+func init() {
+	// every case builds two short-lived realms: collect less often (the per-worker address-space limit stays far away)
+	debug.SetGCPercent(600)
+}
 
 func Check() *core.Check {
 	return &core.Check{
@@ -28,6 +34,7 @@ func Check() *core.Check {
 			"the initial own-property layout of each engine-created object is taken from goja at creation (Reflect.ownKeys + getOwnPropertyDescriptor); only operations are judged by the model, layouts only by the laziness monitor",
 			"Go host wrappers and Dynamic objects are judged by the invariant monitor, the documented host rules and issuer/spelling agreement only (no reference model)",
 			"host slices are exercised with indices < 8 and lengths <= 300 (they grow to the index written)",
+			"while a finding is listed in known-findings.d/C04.json the generator avoids its syntactic neighbourhood (gen.go excluded()); currently: no length writes and no preventExtensions/seal/freeze on Go slice wrappers (their elements are reported non-configurable yet removable, a non-extensible wrapper still grows)",
 			"steps where objmodel leaves its domain (native accessor call, ToNumber of a non-plain object) are not compared; a mutating one ends model comparison for that realm",
 		},
 		Cases: func(tier string) int {
@@ -82,7 +89,7 @@ func minimise(c *core.Ctx, cs *Case, first core.Result) core.Result {
 		return first
 	}
 	if cs.Mode != "seq" {
-		return first
+		return minimiseLazy(c, cs, first)
 	}
 	best := first
 	cur := *cs
@@ -317,4 +324,89 @@ func compareTwins(a, b *world, cs *Case, i int, opA, opB *Op, ra, rb stepRec) {
 // Show returns the canonical text of a generated case (development aid).
 func Show(seed uint64, idx int) string {
 	return materialise(&core.Ctx{Property: "C04", Seed: seed, Index: idx, Rng: core.CaseRng(seed, "C04", idx)}).canon()
+}
+
+// PinnedSignatures runs every pinned witness and returns, for those that fail, index → (monitor, signature, detail)
+// (development aid for maintaining known-findings.d/C04.json).
+func PinnedSignatures(skip map[int]bool) map[int][3]string {
+	out := map[int][3]string{}
+	for i := range pinned {
+		idx := -(i + 1)
+		if skip[idx] {
+			continue
+		}
+		c := &core.Ctx{Property: "C04", Tier: "quick", Seed: 1, Index: idx, Rng: core.CaseRng(1, "C04", idx), Stats: core.NewStats()}
+		r := run(c)
+		if r.Verdict == core.Violated {
+			out[idx] = [3]string{r.Monitor, r.Signature, strings.Split(r.Detail, "\n(original")[0]}
+		}
+	}
+	return out
+}
+
+// minimiseLazy drops statements of a laziness case (a read from one realm, or a mutator from both) while the final
+// layouts keep differing.
+func minimiseLazy(c *core.Ctx, cs *Case, first core.Result) core.Result {
+	if cs.Lazy == nil {
+		return first
+	}
+	best := first
+	cur := &LazyCase{A: append([]LazyStmt(nil), cs.Lazy.A...), B: append([]LazyStmt(nil), cs.Lazy.B...)}
+	budget := 120
+	try := func(l *LazyCase) bool {
+		if budget <= 0 {
+			return false
+		}
+		budget--
+		cand := *cs
+		cand.Lazy = l
+		r := execCase(c, &cand, core.NewStats())
+		if r.Verdict == core.Violated && r.Monitor == first.Monitor {
+			cur = l
+			best = r
+			return true
+		}
+		return false
+	}
+	without := func(s []LazyStmt, i int) []LazyStmt {
+		return append(append([]LazyStmt(nil), s[:i]...), s[i+1:]...)
+	}
+	indexOf := func(s []LazyStmt, src string) int {
+		for i, x := range s {
+			if !x.Read && x.Src == src {
+				return i
+			}
+		}
+		return -1
+	}
+	for changed := true; changed && budget > 0; {
+		changed = false
+		for i := len(cur.A) - 1; i >= 0 && budget > 0; i-- {
+			if i >= len(cur.A) {
+				continue
+			}
+			st := cur.A[i]
+			l := &LazyCase{A: without(cur.A, i), B: cur.B}
+			if !st.Read {
+				j := indexOf(cur.B, st.Src)
+				if j < 0 {
+					continue
+				}
+				l.B = without(cur.B, j)
+			}
+			if try(l) {
+				changed = true
+			}
+		}
+		for i := len(cur.B) - 1; i >= 0 && budget > 0; i-- {
+			if i < len(cur.B) && cur.B[i].Read {
+				if try(&LazyCase{A: cur.A, B: without(cur.B, i)}) {
+					changed = true
+				}
+			}
+		}
+	}
+	best.Detail += "\n(original case: " + core.Trunc(cs.canon(), 1500) + ")"
+	best.Key = cs.canon()
+	return best
 }
